@@ -111,7 +111,7 @@ Definition chain_spec (h : handlers) (a : chain_args) (s : state) : out :=
                   let s4 := s3 <| run_mode := true |> in
                   match h_sizes h sv s4 with
                   | Ok sz =>
-                      if st_cur (sv_store sv) <? var_start s4 + sz then Raised err_OUT_OF_MEMORY (gc_on s4)
+                      if st_cur (sv_store sv) <=? var_start s4 + sz then Raised err_OUT_OF_MEMORY (gc_on s4)
                       else
                         let s5 := s4 <| ss_strs := st_strs (sv_store sv) ++ [] |>
                                      <| ss_current := st_cur (sv_store sv) |> in
@@ -902,7 +902,7 @@ Proof.
   destruct (c_file_missing a); [discriminate|].
   destruct (match c_jumpnum a with Some _ => c_jump_missing a | None => false end); [discriminate|].
   match goal with |- context [sizes_of sv ?z] => destruct (sizes_of sv z) as [sz| | |] eqn:Es end; try discriminate.
-  match goal with |- context [Z.ltb ?x ?y] => destruct (Z.ltb x y) eqn:Elt end; [discriminate|].
+  match goal with |- context [Z.leb ?x ?y] => destruct (Z.leb x y) eqn:Elt end; [discriminate|].
   match goal with |- context [restore_all sv ?z] => destruct (restore_all sv z) as [s6| | | |] eqn:Er end;
     try discriminate.
   intro H. injection H as <-.
@@ -1200,7 +1200,7 @@ Proof.
   - destruct (c_file_missing a); [discriminate|].
     destruct (match c_jumpnum a with Some _ => c_jump_missing a | None => false end); [discriminate|].
     match type of H with context [sizes_of sv ?z] => destruct (sizes_of sv z) as [sz| | |] end; try discriminate.
-    + match type of H with context [Z.ltb ?x ?y] => destruct (Z.ltb x y) end.
+    + match type of H with context [Z.leb ?x ?y] => destruct (Z.leb x y) end.
       * injection H as <-. right. repeat split.
       * match type of H with context [restore_all sv ?z] => destruct (restore_all sv z) as [s6|n s6| | |] eqn:Er end;
           try discriminate.
